@@ -5,9 +5,10 @@ from common import Check, tlc_or_die, run_driver, scratch_dir, rm, MachineryErro
 import corpus
 
 
-def record_events(items, work, name="ev", script="events.py", py=None, env=None):
+def record_events(items, work, name="ev", script="events.py", py=None, env=None, shards=None):
     """Run the items through the real API in parallel shards (order preserved)."""
-    n = max(1, min(NCPU, len(items) // 50 + 1))
+    n = shards or max(1, min(NCPU, len(items) // 50 + 1))
+    n = max(1, min(n, len(items)))
     shards = [items[k::n] for k in range(n)]
     jobs = [{"out": os.path.join(work, "%s.%d.out" % (name, k)), "items": sh} for k, sh in enumerate(shards)]
     run_driver(script, jobs, work, name=name, py=py, env=env)
